@@ -40,12 +40,17 @@ class VU:
     def run(self, interp):
         raise NotImplementedError
 
+    def later_calls(self):
+        """Sibling configurations of this unit that are run as LATER calls when the first call wrote module-level state."""
+        return []
+
     def witness(self, ob, model):
         """Turn a counter-model into a JSON-able scenario for the replay harness (or None)."""
         return None
 
 
 _PROGRAM = None
+_LATER_REP = {}
 
 
 def program():
@@ -114,12 +119,22 @@ def run_vu(vu, prop, seed=0, open_findings=(), start=None, split_at=None):
                 # hold again (a correctly keyed cache passes, state that leaks between calls does not).
                 res["notes"].append("module-level state written by the call (%s): unit re-run as a second call"
                                     % ", ".join(sorted(set(rt.global_writes))))
-                interp2 = Interp(prog, ctx, rt)
-                vu.setup(rt, interp2)
+                # (cost: later calls multiply the paths, so they are explored below ONE representative path of the first
+                #  call per worker - the first one that wrote module-level state - and skipped below the others)
+                first_call = tuple(ctx.trace[:ctx.pos])
+                if _LATER_REP.setdefault(vu.name, first_call) != first_call:
+                    rt_box.clear()
+                    return out
                 try:
-                    vu.run(interp2)
-                except LoopCut:
-                    pass
+                    # ... and then as further calls by its sibling configurations (another hash, another level ...): a
+                    # cache keyed on too little hands one configuration the other's value
+                    for later in [vu] + list(vu.later_calls()):
+                        interp2 = Interp(prog, ctx, rt)
+                        later.setup(rt, interp2)
+                        try:
+                            later.run(interp2)
+                        except LoopCut:
+                            pass
                 finally:
                     # later paths start from a clean import state again: the whole runtime is rebuilt
                     rt_box.clear()
@@ -321,7 +336,7 @@ def run_standin(suite, tier, seed, prop, open_ids):
         env = dict(os.environ)
         env["PYTHONPATH"] = os.path.join(loader.REPO, "src") + os.pathsep + VERIF      # the tree the VCs came from
         p = subprocess.run(["/venv/bin/python", os.path.join(VERIF, "standins", "native.py"), suite, tier, str(seed)],
-                           capture_output=True, text=True, timeout=3000, cwd=VERIF, env=env)
+                           capture_output=True, text=True, timeout=(900 if tier == "quick" else 3000), cwd=VERIF, env=env)
         d = json.loads(p.stdout.strip().splitlines()[-1])
     except Exception as exc:
         res["error"] = "stand-in %s did not run: %r" % (suite, exc)
